@@ -87,17 +87,17 @@ UnwindBreak(f) ==
   ELSE LET en == Last(f.E)  f1 == [f EXCEPT !.E = Front(@)] IN
        IF en.e.k = "while" /\ en.st = "PD"
        THEN PushVIf([PopB(f1) EXCEPT !.E = Append(@, [en EXCEPT !.st = "ES"])], en.u, UnitV)
-       ELSE IF en.e.k = "for" /\ en.st = "PD"
+       ELSE IF en.e.k \in {"for", "ford"} /\ en.st = "PD"
        THEN PushVIf([f1 EXCEPT !.V = SubSeq(@, 1, Len(@) - 2), !.E = Append(@, [en EXCEPT !.st = "ES"])], en.u, UnitV)
-       ELSE IF en.e.k \in {"if", "match"} /\ en.st = "ES" THEN UnwindBreak(PopB(f1))
+       ELSE IF en.e.k \in {"if", "match", "try"} /\ en.st = "ES" THEN UnwindBreak(PopB(f1))
        ELSE UnwindBreak(f1)
 
 RECURSIVE UnwindContinue(_)
 UnwindContinue(f) ==
   IF f.E = <<>> THEN f
   ELSE LET en == Last(f.E)  f1 == [f EXCEPT !.E = Front(@)] IN
-       IF en.e.k \in {"while", "for"} /\ en.st = "PD" THEN f
-       ELSE IF en.e.k \in {"if", "match"} /\ en.st = "ES" THEN UnwindContinue(PopB(f1))
+       IF en.e.k \in {"while", "for", "ford"} /\ en.st = "PD" THEN f
+       ELSE IF en.e.k \in {"if", "match", "try"} /\ en.st = "ES" THEN UnwindContinue(PopB(f1))
        ELSE UnwindContinue(f1)
 
 LookupVar(f, x) ==
@@ -168,6 +168,25 @@ StepExpr(f, en) ==
          IF st = "NE" THEN Res(PushItems(PushE(f, "ES", e, u), e.xs, 1))
          ELSE LET p == PopN(f, Len(e.xs)) IN
               Res(PushVIf(p.f, u, IF e.k = "list" THEN ListV(p.vs) ELSE TupV(p.vs)))
+    [] e.k = "slit" ->
+         IF st = "NE" THEN Res(PushItems(PushE(f, "ES", e, u), [i \in 1..Len(e.fs) |-> e.fs[i].e], 1))
+         ELSE LET p == PopN(f, Len(e.fs)) IN
+              Res(PushVIf(p.f, u, StructV(e.n, [i \in 1..Len(e.fs) |-> [n |-> e.fs[i].n, v |-> p.vs[i]]])))
+    [] e.k = "dot" ->
+         IF st = "NE" THEN Res(PushE(PushE(f, "ES", e, u), "NE", e.e, TRUE))
+         ELSE LET v == TopV(f) IN
+              IF v.k # "Struct" THEN ResErr(f, "TypeError", e.line)
+              ELSE LET S == {i \in 1..Len(v.fs) : v.fs[i].n = e.f} IN
+                   IF S = {} THEN ResErr(f, "NoField", e.line)
+                   ELSE Res(PushVIf(PopV(f), u, v.fs[CHOOSE i \in S : TRUE].v))
+    [] e.k = "letd" ->
+         IF st = "NE" THEN Res(PushE(PushE(f, "ES", e, u), "NE", e.e, TRUE))
+         ELSE LET v == TopV(f)  f1 == PopV(f) IN
+              IF v.k # "Tuple" \/ Len(v.v) # Len(e.ns) THEN ResErr(f, "TypeError", e.line)
+              ELSE Res(PushVIf([f1 EXCEPT !.B[Len(f1.B)] = BindParams(e.ns, v.v, 1, @)], u, UnitV))
+    [] e.k = "try" ->
+         \* the try body is a block; the catch block is not evaluated (see Ref.tla)
+         IF st = "NE" THEN Res(EnterBlock(PushE(f, "ES", e, u), e.b, u)) ELSE Res(PopB(f))
     [] e.k = "ctor" ->
          IF e.args = <<>> THEN Res(PushVIf(f, u, EnumV(e.n, FALSE, NoPayload)))
          ELSE IF st = "NE" THEN Res(PushItems(PushE(f, "ES", e, u), e.args, 1))
@@ -191,7 +210,7 @@ StepExpr(f, en) ==
                  ELSE Res(PushVIf(PushE(PopV(f), "ES", e, u), u, UnitV))
             [] st = "PD" -> Res(PushE(PushE(PopB(f), "PW", e, u), "NE", e.c, TRUE))
             [] OTHER -> Res(f))
-    [] e.k = "for"  ->
+    [] e.k \in {"for", "ford"} ->
          (CASE st = "NE" -> Res(PushE(PushE(PushV(f, IntV(0)), "PW", e, u), "NE", e.it, TRUE))
             [] st = "PW" ->
                  LET p == PopN(f, 2) IN
@@ -199,8 +218,9 @@ StepExpr(f, en) ==
                  IF ~IsList(it) THEN ResErr(f, "TypeError", e.it.line)
                  ELSE IF idx.v >= Len(it.v)
                       THEN Res(PushVIf(PushE([f1 EXCEPT !.B = Append(@, EmptyBlk)], "ES", e, u), u, UnitV))
+                      ELSE IF ~ForItemOk(e, it.v[idx.v + 1]) THEN ResErr(f, "TypeError", e.it.line)
                       ELSE LET f2 == PushV(PushV(PushE(f1, "PD", e, u), IntV(idx.v + 1)), it) IN
-                           Res(EnterBlock([f2 EXCEPT !.NB = Bind(EmptyBlk, e.n, it.v[idx.v + 1])], e.b, FALSE))
+                           Res(EnterBlock([f2 EXCEPT !.NB = ForBinds(e, it.v[idx.v + 1])], e.b, FALSE))
             [] st = "PD" -> Res(PushE(PopB(f), "PW", e, u))
             [] OTHER -> Res(PopB(f)))
     [] e.k = "match" ->
@@ -342,7 +362,7 @@ HasTopReturn(stmts, i) ==
   ELSE LET e == stmts[i] IN
        \/ e.k = "ret"
        \/ e.k \in {"if"} /\ (HasTopReturn(e.t, 1) \/ HasTopReturn(e.f, 1))
-       \/ e.k \in {"while", "for"} /\ HasTopReturn(e.b, 1)
+       \/ e.k \in {"while", "for", "ford", "try"} /\ HasTopReturn(e.b, 1)
        \/ e.k = "match" /\ \E j \in 1..Len(e.arms) : HasTopReturn(e.arms[j].b, 1)
        \/ HasTopReturn(stmts, i + 1)
 
